@@ -25,15 +25,7 @@ func (in *Interp) havoc(p *Value, t types.Type, exported bool, sl, ll, pl int) {
 			}
 			*p = in.freshScalar(fmt.Sprintf("u%d", w), w)
 		case u.Kind() == types.String:
-			e := TapeEntry{Kind: "bytes"}
-			b := make([]*Term, sl)
-			for i := range b {
-				in.path.nvars++
-				b[i] = in.tc.Var(fmt.Sprintf("n%d_b", in.path.nvars), 8)
-				e.vars = append(e.vars, b[i])
-			}
-			in.tapeAdd(e)
-			*p = mkStr(b)
+			*p = mkStr(in.freshBytes(sl))
 		}
 	case *types.Struct:
 		s := (*p).(Struct)
@@ -45,15 +37,10 @@ func (in *Interp) havoc(p *Value, t types.Type, exported bool, sl, ll, pl int) {
 			if !exported {
 				return
 			}
-			e := TapeEntry{Kind: "bytes"}
 			s := make(Slice, pl)
-			for i := range s {
-				in.path.nvars++
-				v := in.tc.Var(fmt.Sprintf("n%d_b", in.path.nvars), 8)
-				e.vars = append(e.vars, v)
-				s[i] = v
+			for i, b := range in.freshBytes(pl) {
+				s[i] = b
 			}
-			in.tapeAdd(e)
 			*p = s
 			return
 		}
